@@ -25,20 +25,22 @@ import (
 type docT = json.RawMessage
 
 type opT struct {
-	Op      string   `json:"op"` // parse | call | retrieve | reread | churn
-	Slot    int      `json:"slot"`
-	Path    string   `json:"path_hex"`
-	Filters []string `json:"filters"`
-	Aggs    []string `json:"aggs"`
-	Acc     bool     `json:"acc"`
-	NoCfg   bool     `json:"nocfg"`
-	Doc     docT     `json:"doc"`
-	K       int      `json:"k"`
-	Mutate  bool     `json:"mutate"`
-	CfgRef  int      `json:"cfg_ref"`  // parse/retrieve: reuse the Config OBJECT built by operation number cfg_ref-1 (0 = a fresh Config)
+	Op       string   `json:"op"` // parse | call | retrieve | reread | churn
+	Slot     int      `json:"slot"`
+	Path     string   `json:"path_hex"`
+	Filters  []string `json:"filters"`
+	Aggs     []string `json:"aggs"`
+	Acc      bool     `json:"acc"`
+	NoCfg    bool     `json:"nocfg"`
+	Doc      docT     `json:"doc"`
+	K        int      `json:"k"`
+	Mutate   bool     `json:"mutate"`
+	CfgRef   int      `json:"cfg_ref"`  // parse/retrieve: reuse the Config OBJECT built by operation number cfg_ref-1 (0 = a fresh Config)
 	Filters2 []string `json:"filters2"` // parse/retrieve: a SECOND Config passed after the first (the library documents that only the first is used)
-	Aggs2   []string `json:"aggs2"`
-	Reenter docT     `json:"reenter"` // call: while the call runs, the function "id" calls the same parsed function on this document
+	Aggs2    []string `json:"aggs2"`
+	Reenter  docT     `json:"reenter"` // call: while the call runs, the function "id" calls the same parsed function on this document
+	DocRef   int      `json:"doc_ref"` // call: use (and keep) the document OBJECT of slot doc_ref instead of building a fresh one (0 = fresh)
+	Rename   []string `json:"rename"`  // call with doc_ref: before the call, rename this member of the kept root object in place (hex from, hex to)
 }
 
 type caseT struct {
